@@ -60,6 +60,15 @@ def gen(rng, nclasses=None, features='main'):
         cs.append({'bases': bases, 'fields': fields, 'methods': methods, 'dctor': special(0.3), 'cctor': cc,
                    'cctor_nonconst': bool(cc) and features == 'all' and rng.random() < 0.3,
                    'other_ctor': rng.random() < 0.2, 'move': rng.random() < 0.1, 'dtor': dtor})
+        # the shape of the two-parameter constructor: no defaults, a default on the last parameter only (still not a default constructor),
+        # or defaults on both (then it IS the default constructor; only when no other one is declared)
+        c = cs[-1]
+        c['other_shape'] = rng.choice(['plain', 'last-default', 'all-default']) if c['other_ctor'] else None
+        if c['other_shape'] == 'all-default':
+            if c['dctor'] is None:
+                c['dctor'] = {'access': 'pub', 'deleted': False, 'via_defaults': True}
+            else:
+                c['other_shape'] = 'last-default'
     return cs
 
 
@@ -130,13 +139,13 @@ def render(cs, prefix='K'):
         def sp(s, text):
             L.append('%s:' % ACC[s['access']])
             L.append('  %s%s;' % (text, ' = delete' if s['deleted'] else ''))
-        if c['dctor']:
+        if c['dctor'] and not c['dctor'].get('via_defaults'):
             sp(c['dctor'], '%s()' % name)
         if c['cctor']:
             sp(c['cctor'], '%s(%s%s &)' % (name, '' if c['cctor_nonconst'] else 'const ', name))
         if c['other_ctor']:
             L.append('public:')
-            L.append('  %s(int, int);' % name)
+            L.append('  %s(%s);' % (name, {'plain': 'int, int', 'last-default': 'int a, int b = 0', 'all-default': 'int a = 0, int b = 0'}[c.get('other_shape') or 'plain']))
         if c['move']:
             L.append('public:')
             L.append('  %s(%s &&);' % (name, name))
